@@ -69,8 +69,12 @@ MCREW_TRUSTED = [
     "RemMachine after the D15 repair: c.Lock to return; GetCrewOp: Crew.Copy under RLock); tested by the concurrent run "
     "(linearisation search, -race in the thorough tier), not proved",
     "bbolt: one Update transaction is all-or-nothing and fails iff the database is closed (assumed; the fault injector closes "
-    "and re-opens the bolt file); durability across a crash is outside the property",
-    "the three machine specifications exist twice (Gallina terms in Model/MCrew.v, YAML + ECMAScript text in "
+    "and re-opens the bolt file); durability across a crash is outside the property. That WriteState puts a whole batch, "
+    "whatever its size, into one such transaction and fails before it when one record cannot be marshalled is not assumed: "
+    "it is what the volume histories observe (130 / 200 machines, one end state holding a NaN)",
+    "a float64 NaN (a value encoding/json refuses) is represented in the model and in the case terms by the marker string "
+    "\"<NaN>\" (Model/MCrew.v nan_marker; the harness submits a real NaN and never the marker as a genuine string)",
+    "the four machine specifications exist twice (Gallina terms in Model/MCrew.v, YAML + ECMAScript text in "
     "harness/overlay/common); their agreement is checked by the same runs (Process results are compared field by field)",
     "goja, encoding/json, yaml; error texts are never compared",
 ]
@@ -79,9 +83,13 @@ PROPS = {
     "C16": dict(
         level="proof",
         rule="mcrewseq: operation sequences add / rem / process / get over 1-4 machines (specifications rec, flip, deaf, a missing "
-             "one, one that does not compile; bindings that cannot be serialised), the store taken down and up (bolt file closed / "
+             "one, one that does not compile, and nan: no action, keeps the message's \"poison\", which is a NaN in some messages, so "
+             "that one end state of a batch cannot be serialised while the store is up; add with bindings that cannot be "
+             "serialised), the store taken down and up (bolt file closed / "
              "re-opened) from position i to j - random windows and sprinkled faults in the quick tier, every i <= j of 6-operation "
-             "sequences in the thorough tier - hand-written corpus (D15 witnesses, the service tests' scenario) first; after every "
+             "sequences in the thorough tier - hand-written corpus (D15 witnesses, the service tests' scenario, two volume histories: "
+             "200 / 130 machines plus one nan machine, a poisoned broadcast repeated 5 / 4 times - the write must fail as a whole "
+             "for every machine -, then without the nan machine) first; after every "
              "operation the crew in memory (GetCrewOp) and the stored records (Storage.GetCrew) are read back. Compared with the "
              "model: response class and Walked From/To/emitted per machine, memory, store. Oracle on the Go observations: memory = "
              "store after every operation, a failed operation changed nothing, responses accepted by the specification automaton. "
